@@ -1,5 +1,10 @@
 package run
 
+import (
+	"runtime"
+	"sync/atomic"
+)
+
 // Quiet is a logger that discards everything (the harness records Errors() instead).
 type Quiet struct{}
 
@@ -7,3 +12,14 @@ func (Quiet) Debugf(format string, o ...interface{})            {}
 func (Quiet) Infof(format string, o ...interface{})             {}
 func (Quiet) Warnf(format string, o ...interface{})             {}
 func (Quiet) Errorf(err error, format string, o ...interface{}) {}
+
+var evalCalls atomic.Int64
+
+// Tick is called once per CheckIfAllowed call of the harness. The engine opens its cache-hit log file on every cache hit and
+// never closes it (the descriptor is released by the finaliser only), so a long sweep can exhaust the descriptors of the
+// process before the collector runs on its own: collect every few thousand calls.
+func Tick() {
+	if evalCalls.Add(1)%3000 == 0 {
+		runtime.GC()
+	}
+}
